@@ -2,6 +2,7 @@
 //! Usage: acb_verif_harness <family> --seed N --count N
 //! Writes protocol lines (see lean/Driver/Proto.lean) to stdout.
 mod app;
+mod cli;
 mod appgen;
 mod costs;
 mod determinism;
@@ -324,6 +325,16 @@ fn main() {
         "layout-replay" => replay_stdin(&mut w, layout::replay),
         "summary-replay" => replay_stdin(&mut w, summary::replay),
         "csvrt-replay" => replay_stdin(&mut w, csvrt::replay),
+        "cli" => {
+            let mut r = rng::Rng::new(seed ^ 0xC11);
+            for i in 0..count {
+                let mut cr = r.fork();
+                let mut s = String::new();
+                cli::run_case(&format!("I{}-{}", seed, i), &mut cr, &mut s);
+                w.write_all(s.as_bytes()).unwrap();
+            }
+            cli::cleanup();
+        }
         "costs" => {
             let mut r = rng::Rng::new(seed);
             for i in 0..count {
